@@ -124,6 +124,27 @@ def run(ctx, model_ok):
         else:
             text, total = f"{na} = {ta}\n{nb} = {tb}\n{na} {nb} {ta}", 2 * sa + sb
         cases.append({"text": text, "secs": total, "kind": "var", "nparts": len(pa) + len(pb), "lang": lang, "last": True})
+    # the built-in duration rules are not addressable through the API: delete_rule with the name of one of them (alone, or after an
+    # API rule of that name was registered and deleted) returns false resp. removes only the API rule, and durations read as before
+    dur_rules = [k for k in C.json.load(open(C.REPO + "/src/json/config.json", encoding="utf-8"))["languages"]["en"]["rules"] if "duration" in k]
+    probe = [("90 minutes as hours", 3600), ("10 days as weeks", 604800), ("2 hours 30 minutes", 9000), ("1 week 3 days", 864000), ("3 hours - 30 minutes", 9000)]
+    for name in dur_rules:
+        for with_api in (False, True):
+            hist = [{"op": "reset"}]
+            if with_api:
+                hist.append({"op": "rule_add", "lang": "en", "name": name, "kind": "const", "patterns": ["zzq {NUMBER:n}"], "v": 1})
+            hist.append({"op": "rule_del", "lang": "en", "name": name})
+            hr = C.run_impl(hist + [{"op": "exec", "lang": "en", "text": t} for t, _ in probe] + [{"op": "reset"}])
+            ctx.count("delete-built-in-name")
+            if bool(hr[len(hist) - 1].get("ret")) != with_api:
+                ctx.oracle_fail({"class": "delete-built-in", "what": f"delete_rule('en', {name!r}) returned {hr[len(hist) - 1].get('ret')} ({'an API rule of that name was registered' if with_api else 'no API rule of that name'})", "ops": hist + [{"op": "reset"}]})
+            for (t, secs), r in zip(probe, hr[len(hist):-1]):
+                l = r.get("lines", [None])[0] if "lines" in r else None
+                v = l.get("ok") if l and "ok" in l else None
+                ctx.seen(("after-delete", name, with_api, t), True)
+                if v is None or v.get("t") != "Du" or v["secs"] != secs:
+                    ctx.oracle_fail({"class": "duration-after-delete", "what": f"after delete_rule('en', {name!r}) {t!r} evaluates to {v}, the unit lengths give {secs} s",
+                                     "ops": hist + [{"op": "exec", "lang": "en", "text": t}, {"op": "reset"}], "spec": secs})
     res = C.run_impl([{"op": "exec", "lang": c["lang"], "text": c["text"]} for c in cases])
     for c, r in zip(cases, res):
         l = r.get("lines", [None])[-1 if c.get("last") else 0] if "lines" in r else None
